@@ -294,6 +294,7 @@ def run(ctx: Ctx):
     col.ob("G13", "S4", f"{rel}::MultiHeadedAttention.forward::heads-concatenated-then-WC", okmerge,
            f"the result `{u(ret.value)}` is not WC applied to the heads flattened over the last two axes", rel, ret.lineno)
     _masked_values_excluded_by_selection(ctx)
+    _legal_dims_table(ctx)
     plumbing(ctx, "S3")
     return dict(
         explanation=(
@@ -341,6 +342,42 @@ def _masked_values_excluded_by_selection(ctx: Ctx):
            f"`{u(prods[0])}` excludes masked positions only through their zero weight; a non-finite value there (uninitialised or "
            f"NaN padding) gives 0 * inf = nan and the whole output row is NaN, although the property lets masked values be "
            f"anything", rel, prods[0].lineno)
+
+
+def _legal_dims_table(ctx: Ctx):
+    """S6: the sequence dimension may be any axis of the key except its last, counted from either end - [-key_dim + 1, key_dim - 2]
+    without -1 (which, counted from the end of the QUERY, would be the feature axis). check_input's refusal is evaluated
+    (sa/inteval.py) for keys of 3 and 4 dimensions and every dim in [-key_dim - 1, key_dim]: it must raise exactly outside that set."""
+    from sa.inteval import NotEvaluable, int_eval
+    col, pkg = ctx.col, ctx.pkg
+    f = pkg.func("_attn::GlobalSoftAttention.check_input")
+    rel = f.module.relname
+    cands = [n for n in own_nodes(f.node) if isinstance(n, ast.If) and any(isinstance(x, ast.Raise) for x in n.body)
+             and any(isinstance(x, ast.Attribute) and u(x) == "self.dim" for x in ast.walk(n.test))]
+    col.floor("dim_range_checks", len(cands), 1)
+    bad = None
+    try:
+        for kd in (3, 4):
+            for d in range(-kd - 1, kd + 1):
+                def leaf(x, kd=kd):
+                    if isinstance(x, ast.Call) and isinstance(x.func, ast.Attribute) and x.func.attr in ("dim", "ndimension") and not x.args:
+                        return kd
+                    if isinstance(x, ast.Attribute) and x.attr == "ndim":
+                        return kd
+                    if isinstance(x, ast.Name) and x.id not in ("self",):
+                        return kd  # (the local holding key.dim())
+                    return None
+                raised = any(bool(int_eval(n.test, {"self.dim": d, "__leaf__": leaf})) for n in cands)
+                legal = -kd + 1 <= d <= kd - 2 and d != -1
+                if raised == legal and bad is None:
+                    bad = (kd, d, raised)
+    except NotEvaluable as e:
+        col.undecided(f"{rel}::{f.qualname}: the dimension check is outside the evaluated fragment ({e})")
+        return
+    col.ob("G12", "S6", f"{rel}::{f.qualname}::legal-dims-table", bad is None,
+           (f"for a key of {bad[0]} dimensions dim={bad[1]} is {'refused' if bad[2] else 'accepted'}; the legal sequence dimensions are "
+            f"[{-bad[0] + 1}, {bad[0] - 2}] without -1: a documented-legal configuration yields no output at all (or an illegal one is let through "
+            f"to mis-shaped products)") if bad else "", rel, cands[0].lineno if cands else f.line)
 
 
 def _mutants():
